@@ -185,10 +185,11 @@ Arguments PRaise {A} e.
 
 Record version := mkVersion {
   v_catch_validation : bool;   (* ValidationError -> InvalidRequestError *)
-  v_safe_dump : bool           (* serialisation failure -> application error *)
+  v_safe_dump : bool;          (* serialisation failure -> application error *)
+  v_decode_in_handler : bool   (* http/handlers.py decodes the body as UTF-8 first *)
 }.
-Definition pre_fix := mkVersion false false.
-Definition fixed := mkVersion true true.
+Definition pre_fix := mkVersion false false true.
+Definition fixed := mkVersion true true false.
 
 Definition E_PARSE : Z := -32700.
 Definition E_INVALID : Z := -32600.
@@ -320,6 +321,23 @@ Section Wrapper.
         | (PRaise e, l) => (OEscaped e, l)
         end
     end.
+
+  (* ---- the transport handlers (http/handlers.py JsonRpcHandler.post and
+     WebSocketHandler.on_message): an empty message is ignored; before the fix the
+     message was decoded as UTF-8 first and a failure (like any exception leaving
+     handle_json) ended in the handler's catch-all: HTTP 500 / closed socket. *)
+  Inductive endpoint_out :=
+  | EpNoMessage
+  | EpTransportError
+  | EpOut (o : outcome).
+
+  Definition endpoint (empty utf8_ok : bool) (i : input) : endpoint_out * log :=
+    if empty then (EpNoMessage, [])
+    else if v_decode_in_handler v && negb utf8_ok then (EpTransportError, [])
+    else match handle_json i with
+         | (OEscaped _, l) => (EpTransportError, l)
+         | (o, l) => (EpOut o, l)
+         end.
 End Wrapper.
 
 (* ---- observations and the response grammar ---------------------------------- *)
